@@ -124,6 +124,36 @@ pub fn c07(thorough: bool) -> Vec<Part> {
     b.orders = Orders::AscRev;
     cfgs.push(b);
     {
+        // a read that yields a request AND leaves an interim 100 queued, then close + reuse
+        let mut seg = tagged_get(0, 1);
+        seg.extend_from_slice(&tagged_expect_head(0, 2, 3));
+        let mut c0 = ClientCfg::adversary(vec![tagged_get(0, 0), seg, b"abc".to_vec()]);
+        c0.reads = true;
+        c0.can_shut_rd = false;
+        c0.can_shut_wr = false;
+        let mut c1 = ClientCfg::adversary(vec![tagged_get(1, 0)]);
+        c1.reads = true;
+        c1.can_close = false;
+        c1.can_shut_rd = false;
+        c1.can_shut_wr = false;
+        let mut e = SrvCfg::base("C07", "request + Expect head in one segment, close, late client reusing the descriptor", vec![c0, c1]);
+        e.max_outstanding_for_respond = 3;
+        cfgs.push(e);
+        // responses that need three or more writes each (minimal SO_SNDBUF), two clients
+        let mk2 = |c: usize| {
+            let mut cl = ClientCfg::adversary(vec![tagged_get(c, 0)]);
+            cl.reads = true;
+            cl.partial_recv = true;
+            cl.can_shut_rd = false;
+            cl.can_shut_wr = false;
+            cl
+        };
+        let mut l = SrvCfg::base("C07", "14 KiB responses through a minimal SO_SNDBUF (three or more writes each), clients read 1 KiB at a time and may close", vec![mk2(0), mk2(1)]);
+        l.resp_sizes = vec![14000];
+        l.small_sndbuf = true;
+        cfgs.push(l);
+    }
+    {
         // at capacity: 9 idle connections, a client that closes with a request in flight and a
         // late connecting client
         let mut clients = vec![];
@@ -150,7 +180,11 @@ pub fn c07(thorough: bool) -> Vec<Part> {
         cfgs.push(t2);
     }
     for cfg in cfgs {
-        let req: &[&str] = if cfg.label.starts_with("at capacity") {
+        let req: &[&str] = if cfg.label.starts_with("request + Expect") {
+            &["interim_100_received_by_client", "client_closed_with_request_in_flight"]
+        } else if cfg.label.starts_with("14 KiB") {
+            &["response_needed_several_writes(short_write)"]
+        } else if cfg.label.starts_with("at capacity") {
             &["ten_connections_open", "client_closed_with_request_in_flight", "respond_after_client_closed"]
         } else if cfg.label.starts_with("three clients, one request") || cfg.label.starts_with("four clients") {
             &["accept_reused_descriptor_number_of_released_connection", "accept_reused_number_while_request_of_previous_owner_outstanding", "respond_after_client_closed", "client_closed_with_request_in_flight"]
@@ -262,8 +296,17 @@ pub fn c10(thorough: bool) -> Vec<Part> {
         est.preconnected = true;
         clients.push(est);
         for c in 1..3 {
-            let mut a = ClientCfg::adversary(vec![tagged_get(c, 0)]);
+            // the non-reading client pipelines two requests in one segment
+            let script = if c == 2 {
+                let mut v = tagged_get(c, 0);
+                v.extend_from_slice(&tagged_get(c, 1));
+                vec![v]
+            } else {
+                vec![tagged_get(c, 0)]
+            };
+            let mut a = ClientCfg::adversary(script);
             a.reads = c == 1;
+            a.can_shut_rd = c == 2;
             a.can_shut_wr = false;
             clients.push(a);
         }
@@ -271,7 +314,7 @@ pub fn c10(thorough: bool) -> Vec<Part> {
         cfg.resp_sizes = vec![12000];
         cfg.small_sndbuf = true;
         cfg.release_check = true;
-        cfg.max_outstanding_for_respond = 2;
+        cfg.max_outstanding_for_respond = 3;
         explore_req(&mut part, &cfg, if thorough { 2_000_000 } else { 300_000 }, if thorough { 1200.0 } else { 100.0 }, &["response_needed_several_writes(short_write)", "client_shutdown_rd", "respond_after_client_closed"]);
     }
     for cfg in cfgs {
